@@ -577,6 +577,14 @@ class C02(Prop):
                 await env.get_template_async(name)
             else:
                 await env.from_string(src).render_async(n=name)
+            # the blocking API is the same API when it is called from a coroutine, on what the async API has cached
+            # (and the other way round)
+            if tag == "get":
+                env.get_template(name)
+                await env.get_template_async(name)
+            else:
+                env.from_string(src).render(n=name)
+                await env.from_string(src).render_async(n=name)
 
         try:
             if use_async:
